@@ -46,7 +46,7 @@ COMPONENTS = {
     "real": ["EnsembleOptimizer (stopping criteria, exit codes)", "optimizer / evaluator steps", "EnsembleEvaluator", "filters", "estimators", "ConstraintInfo", "SciPy plug-in + real scipy.optimize (40% of groups)"],
     "stub": ["SimEvaluator with fault plan", "sim/scripted optimizer (60% of groups)", "objective/constraint scalers"],
 }
-PROBES = ["all_failed_tolerated_run_continues", "too_few_expected", "too_few_by_filter", "too_few_by_estimator", "too_few_by_threshold", "max_functions_expected",
+PROBES = ["estimator_deficiency_in_gradient_only_evaluation", "every_completed_evaluation_delivered", "all_failed_tolerated_run_continues", "too_few_expected", "too_few_by_filter", "too_few_by_estimator", "too_few_by_threshold", "max_functions_expected",
           "user_abort_expected", "evaluator_exception_expected", "finished_expected", "real_scipy_backend", "parallel_de",
           "evaluator_step", "nested", "dontcare_zero_weight_survivors", "failing_results_delivered", "rms_zero_all_failed"]
 REAL = ["slsqp", "l-bfgs-b", "cobyla", "nelder-mead", "differential_evolution"]
@@ -111,6 +111,29 @@ def _group_scenario(gseed: int) -> dict:
         if backend in ("scripted", "differential_evolution"):
             cfg["realizations"]["realization_min_success"] = 0
             scn["nan_tolerant_stratum"] = True
+    # stratum: the deficiency arises only inside a gradient evaluation that follows its function evaluation (perturbation
+    # failures leave a single realization to a stddev estimator while the thresholds are still met)
+    scn["gradient_estimator_stratum"] = False
+    if backend == "scripted" and step == "optimizer" and not nested and not scn["nan_tolerant_stratum"] and rng.random() < 0.12:
+        nr = len(scn["world"]["real_ids"])
+        if nr >= 2:
+            cfg["realizations"]["weights"] = [round(rng.uniform(0.5, 2.0), 3) for _ in range(nr)]
+            cfg["realizations"]["realization_min_success"] = 1
+            cfg["gradient"]["perturbation_min_success"] = cfg["gradient"]["number_of_perturbations"]
+            cfg["gradient"].pop("merge_realizations", None)
+            cfg.pop("realization_filters", None)
+            cfg["objectives"].pop("realization_filters", None)
+            if cfg.get("nonlinear_constraints"):
+                cfg["nonlinear_constraints"].pop("realization_filters", None)
+            no = len(scn["world"]["obj_ids"])
+            cfg["function_estimators"] = [{"method": "mean"}, {"method": "stddev"}]
+            cfg["objectives"]["function_estimators"] = [1] + [rng.randrange(2) for _ in range(no - 1)]
+            if cfg.get("nonlinear_constraints"):
+                cfg["nonlinear_constraints"]["function_estimators"] = [rng.randrange(2) for _ in scn["world"]["con_ids"]]
+            p0 = rng.randrange(max(len(cfg["optimizer"]["options"]["points"]), 1))
+            cfg["optimizer"]["options"]["script"] = [{"op": "f", "pts": [p0]}, {"op": "g", "pts": [p0]}, {"op": "f", "pts": [-1]}]
+            cfg["optimizer"].pop("max_functions", None)
+            scn["gradient_estimator_stratum"] = True
     scn["backend"] = backend
     scn["nested"] = nested
     scn["fault_rng"] = rng.getrandbits(32)
@@ -251,6 +274,16 @@ def check_run(ctx, scn, fault, viol, probes, baseline=None) -> tuple[int, str]:
         nfun = _counted(ctx.fake.callback_log)[0]
     raised = next((c.k for c in ctx.evaluator.calls if c.raised == "raise"), None)
     aborted = next((c.k for c in ctx.evaluator.calls if c.raised == "abort"), None)
+    # results of every evaluation that the evaluator completed reach the handlers (also the failing one)
+    all_linked = {ln.call.k for ln in oracles.linked_results(ctx) if ln.call is not None}
+    for c in ctx.evaluator.calls:
+        if c.raised is None and c.k not in all_linked and not scn.get("nested"):
+            viol.append({"clause": "evaluation-results-not-delivered", "sig": {"kind": c.kind, "step": step_kind},
+                         "detail": f"backend {backend}, fault {fault}: the evaluator completed call {c.k} ({c.kind}) but no results of it were delivered "
+                                   f"to the handlers (run ended with {ex})"})
+            break
+    else:
+        probe("every_completed_evaluation_delivered")
     finished = int(OptimizerExitCode.EVALUATION_STEP_FINISHED if step_kind == "evaluator" else OptimizerExitCode.OPTIMIZER_STEP_FINISHED)
     mf = cfg0["optimizer"].get("max_functions") if step_kind == "optimizer" else None
     if scn.get("nested"):
@@ -289,6 +322,8 @@ def check_run(ctx, scn, fault, viol, probes, baseline=None) -> tuple[int, str]:
     elif first_def is not None:
         probe("too_few_expected")
         probe("too_few_by_" + first_def[1])
+        if first_def[1] == "estimator" and any(c.k == first_def[0] and c.kind == "g" for c in ctx.evaluator.calls):
+            probe("estimator_deficiency_in_gradient_only_evaluation")
         expected = int(OptimizerExitCode.TOO_FEW_REALIZATIONS)
         if first_def[0] in delivered_calls:
             probe("failing_results_delivered")
@@ -383,7 +418,12 @@ def execute(scn: dict) -> dict:
         cfg = scn["configs"][0]
         nr = len(scn["world"]["real_ids"])
         npert = cfg["gradient"]["number_of_perturbations"]
-        if kind == "nan" and scn.get("nan_tolerant_stratum"):
+        if kind == "nan" and scn.get("gradient_estimator_stratum"):
+            # all realizations but one lose a perturbed evaluation of evaluation k (k = 1 is the gradient-only evaluation)
+            keep = frng.randrange(nr)
+            fault = {"kind": "nan", "at": k, "faults": [{"kind": "nan", "eval": k, "real": r, "pert": frng.randrange(npert), "col": None}
+                                                         for r in range(nr) if r != keep]}
+        elif kind == "nan" and scn.get("nan_tolerant_stratum"):
             # every realization (and perturbation) of one evaluation fails
             fault = {"kind": "nan", "faults": [{"kind": "nan", "eval": k, "real": None, "pert": None, "col": None}], "at": k}
         elif kind == "nan":
